@@ -43,13 +43,14 @@ RULE = (
     "a fresh copy. Workers are real threads gated so that one runs between yield points (uploadId read/write on "
     "shared objects, lock acquire/release, Variable get/set/delete, every fake-S3 call); the next runnable worker is "
     "taken from a Hypothesis-drawn choice list (sched_random) or from depth-first enumeration of the complete "
-    "two-worker schedule tree, split into subtrees by 6-decision prefixes (sched_dfs2; quick tier explores a bounded "
-    "number of schedules per subtree, thorough explores all of them - class subtree_truncated must be 0 for the "
-    "exhaustive flag to mean anything). Non-trivial schedule: >=2 workers executed a shared-state step before the "
-    "first create_multipart_upload was executed; distinct = distinct (set-up, executed worker order). "
-    "Sinks: MPUFileSink with 1-8 parts of 0..64KiB, arbitrary distinct part numbers, any order of writing and of the "
+    "two-worker schedule tree of each set-up, split into 64 subtrees by the first 6 decisions (sched_dfs2; the quick "
+    "tier stops after 200 schedules per subtree, the thorough tier explores every schedule - class subtree_truncated "
+    "must be 0 for the exhaustive flag to mean anything; 'schedules' in classes is the number of schedules run). "
+    "Non-trivial schedule: >=2 workers executed a shared-state step before the first create_multipart_upload was "
+    "executed; distinct = distinct (set-up, executed worker order). "
+    "Sinks: MPUFileSink with 1-12 parts of 0..64KiB, arbitrary distinct part numbers, any order of writing and of the "
     "list given to finalise, parts dir beside/elsewhere, keep_parts, pickled clones; every subset of the four limit "
-    "kwargs. Non-trivial: >=2 parts / >=1 configured limit."
+    "kwargs; S3 classes' accessors. Non-trivial: >=2 parts / >=1 configured limit."
 )
 ASSUMPTIONS = [
     "interleavings are controlled at the instrumented yield points only, under CPython's sequentially consistent execution",
@@ -150,7 +151,8 @@ class Sched:
         except _Abort:
             pass
         except BaseException as e:  # noqa: BLE001 - reported by the oracle
-            w.exc = e
+            if not self.aborted:  # whatever happens while an abandoned schedule unwinds is not an observation
+                w.exc = e
         finally:
             w.done = True
             self.ctl.release()
@@ -169,6 +171,7 @@ class Sched:
         for w in self.workers:
             w.thread = threading.Thread(target=self._main, args=(w,), daemon=True, name=f"vf-c18-w{w.idx}")
             w.thread.start()
+        patience = SAFETY_TIMEOUT_S
         try:
             # warm-up: code before the first yield point touches no shared state; no decision is spent on it
             for w in self.workers:
@@ -194,18 +197,18 @@ class Sched:
                     break
                 self.order.append(w.idx)
                 self._step(w)
+        except HarnessError:
+            patience = 5.0  # a worker is stuck already; do not wait long for it again
+            raise
         finally:
             if any(not w.done for w in self.workers):
                 self.aborted = True
                 for w in self.workers:
                     w.go.release()
             for w in self.workers:
-                w.thread.join(SAFETY_TIMEOUT_S)
-                if w.thread.is_alive():
+                w.thread.join(patience)
+                if w.thread.is_alive() and patience == SAFETY_TIMEOUT_S:
                     raise HarnessError(f"worker thread {w.idx} could not be stopped")
-
-
-_SHORT = {}
 
 
 def fmt_trace(trace: List[tuple], limit: int = 330) -> str:
@@ -631,14 +634,13 @@ def _exc_where(e: BaseException) -> tuple:
 
 def _ctxmsg(case: dict, run: _Run) -> str:
     s = run.sched
-    return "mode=%s share=%s writes=%s fin=%s choices=%s trace=[%s]" % (
-        case["mode"], case["share"], case["writes"], case["fin"], s.made, fmt_trace(s.trace),
+    fin = "" if run.sched_fin is None else " finalise=[%s]" % fmt_trace(run.sched_fin.trace, 80)
+    return "mode=%s share=%s writes=%s fin=%s choices=%s trace=[%s]%s" % (
+        case["mode"], case["share"], case["writes"], case["fin"], s.made, fmt_trace(s.trace), fin,
     )
 
 
 def _check_workers(case, run, sched: Sched, phase: str) -> None:
-    if sched.deadlock is not None:
-        raise Violation(f"deadlock during {phase}: {sched.deadlock}; {_ctxmsg(case, run)}")
     for w in sched.workers:
         if w.exc is not None:
             if isinstance(w.exc, HarnessError):
@@ -650,6 +652,8 @@ def _check_workers(case, run, sched: Sched, phase: str) -> None:
                     + "".join(traceback.format_exception(w.exc))
                 )
             raise Violation(f"{phase}: worker {w.idx} raised {desc} at {where}; {_ctxmsg(case, run)}")
+    if sched.deadlock is not None:
+        raise Violation(f"deadlock during {phase}: {sched.deadlock}; {_ctxmsg(case, run)}")
 
 
 def check_run(case: dict, run: _Run, T) -> bool:
@@ -1127,6 +1131,32 @@ def o_s3_limits(case, T):
 
 
 # ===================================================================================================
+# signature predicates of the defects observed on the pinned tree (consulted only if known_findings.json lists them)
+def _known_d16(sub, case, msg) -> bool:
+    """MPUFileSink.max_* read the min_* keys: every max accessor equals limits.get(min key, default max)."""
+    if sub != "sink_limits":
+        return False
+    from odc.geo.cog._mpu_fs import MPUFileSink
+
+    lim = case["limits"]
+    ref, sink = MPUFileSink("x.bin"), MPUFileSink("x.bin", **lim)
+    pairs = (("min_write_sz", "max_write_sz"), ("min_part", "max_part"))
+    differs = any(lim.get(lo, getattr(ref, hi)) != lim.get(hi, getattr(ref, hi)) for lo, hi in pairs)
+    return differs and all(
+        getattr(sink, hi) == lim.get(lo, getattr(ref, hi)) and getattr(sink, lo) == lim.get(lo, getattr(ref, lo))
+        for lo, hi in pairs
+    )
+
+
+def _known_d17(sub, case, msg) -> bool:
+    return sub == "sink_finalise" and "cannot mmap an empty file" in msg and any(p[1] == 0 for p in case["parts"][1:])
+
+
+def _known_d18(sub, case, msg) -> bool:
+    """Loser of the local race initiates again: AssertionError in initiate, local set-up only."""
+    return sub in ("sched_random", "sched_dfs2") and case["mode"] == "local" and "raised AssertionError" in msg and " initiate;" in msg
+
+
 def build(chk: Check) -> None:
     chk.sub("sched_random", o_sched, strategy=s_sched(), n={"quick": 5000, "thorough": 300000},
             budget_s={"quick": 50, "thorough": 800})
@@ -1137,3 +1167,6 @@ def build(chk: Check) -> None:
             budget_s={"quick": 20, "thorough": 300})
     chk.sub("s3_limits", o_s3_limits, enum=e_s3_limits, exhaustive_tiers=("quick", "thorough"),
             budget_s={"quick": 20, "thorough": 60})
+    chk.known("D16", _known_d16)
+    chk.known("D17", _known_d17)
+    chk.known("D18", _known_d18)
